@@ -166,6 +166,19 @@ def build():
     tf = fn_body(ps, "try_from", after="TryFrom<Zonefile> for ZoneBuilder")
     one(r"if\s+let\s+ZoneRecordData::Ns\(ns\)\s*=\s*rdata\s*\{\s*glue\.append\(\s*&mut\s+zonefile\.normal\.collect_glue\(ns\.nsdname\(\)\)\s*,?\s*\);\s*\}", tf, "glue collection per NS target")
     defs.append(("zonefile_classifies_ns_ds_below_apex_and_cname", "bool", "true"))
+    # ---- tree.rs
+    tr = strip_comments(read("src/zonetree/tree.rs"))
+    zs = impl_body(tr, r"impl ZoneSetNode\s*\{")
+    fz = fn_body(zs, "find_zone")
+    one(r"^\s*if\s+let\s+Some\(label\)\s*=\s*qname\.next\(\)\s*\{\s*if\s+let\s+Some\(node\)\s*=\s*self\.children\.get\(label\)\s*\{\s*if\s+let\s+Some\(zone\)\s*=\s*node\.find_zone\(qname\)\s*\{\s*return\s+Some\(zone\);\s*\}\s*\}\s*\}\s*self\.zone\.as_ref\(\)\s*$", fz, "ZoneSetNode::find_zone")
+    one(r"^\s*match\s+apex_name\.next\(\)\s*\{\s*Some\(label\)\s*=>\s*self\.children\.get\(label\)\?\.get_zone\(apex_name\)\s*,\s*None\s*=>\s*self\.zone\.as_ref\(\)\s*,\s*\}\s*$", fn_body(zs, "get_zone"), "ZoneSetNode::get_zone")
+    one(r"^\s*if\s+let\s+Some\(label\)\s*=\s*apex_name\.next\(\)\s*\{\s*self\.children\s*\.entry\(label\.into\(\)\)\s*\.or_default\(\)\s*\.insert_zone\(apex_name,\s*zone\)\s*\}\s*else\s+if\s+self\.zone\.is_some\(\)\s*\{\s*Err\(ZoneTreeModificationError::ZoneExists\)\s*\}\s*else\s*\{\s*self\.zone\s*=\s*Some\(zone\);\s*Ok\(\(\)\)\s*\}\s*$", fn_body(zs, "insert_zone"), "ZoneSetNode::insert_zone")
+    rz = fn_body(zs, "remove_zone")
+    old = re.search(r"^\s*match\s+apex_name\.next\(\)\s*\{\s*Some\(label\)\s*=>\s*\{\s*if\s+self\.children\.remove\(label\)\.is_none\(\)\s*\{\s*return\s+Err\(ZoneTreeModificationError::ZoneDoesNotExist\);\s*\}\s*\}\s*None\s*=>\s*\{\s*self\.zone\s*=\s*None;\s*\}\s*\}\s*Ok\(\(\)\)\s*$", rz, re.S)
+    new = re.search(r"^\s*match\s+apex_name\.next\(\)\s*\{\s*Some\(label\)\s*=>\s*match\s+self\.children\.get_mut\(label\)\s*\{\s*Some\(node\)\s*=>\s*node\.remove_zone\(apex_name\)\s*,\s*None\s*=>\s*Err\(ZoneTreeModificationError::ZoneDoesNotExist\)\s*,\s*\}\s*,\s*None\s*=>\s*\{\s*if\s+self\.zone\.take\(\)\.is_none\(\)\s*\{\s*Err\(ZoneTreeModificationError::ZoneDoesNotExist\)\s*\}\s*else\s*\{\s*Ok\(\(\)\)\s*\}\s*\}\s*\}\s*$", rz, re.S)
+    if not old and not new:
+        raise GenError("ZoneSetNode::remove_zone has neither of the two known shapes")
+    defs.append(("zremove_recursive", "bool", b(bool(new))))
     return defs
 
 if __name__ == "__main__":
